@@ -733,6 +733,31 @@ func TestC09(t *testing.T) {
 		}
 		return c
 	}, checkOffer)
+	if env.Shards <= 1 {
+		// exhaustive grid: every pooled abbreviation x every pooled value, on two objects per version
+		var grid []Offer
+		for vi, v := range spec.Versions {
+			for _, bg := range []int{0, 3} {
+				a := background(v, bg)
+				for _, abv := range gen.AllAbvs() {
+					for _, val := range gen.AllVals() {
+						grid = append(grid, Offer{Ver: vi, A: a, Abv: gen.BStr(abv), Val: gen.BStr(val)})
+					}
+				}
+			}
+		}
+		Enum(h, "offer", len(grid), func(i int) Offer { return grid[i] }, func(i int) bool { return checkOffer(grid[i]) == nil }, checkOffer)
+		if !h.replaying() {
+			near := 0
+			for _, c := range grid {
+				if cl := nearValid(spec.Versions[c.Ver], string(c.Abv), string(c.Val)); cl != "legal" && cl != "unknown abbreviation" && cl != "known metric, other value" {
+					near++
+				}
+			}
+			h.R.AddExact(int64(len(grid)), int64(near/2))
+			h.R.Count(fmt.Sprintf("exhaustive pool grid: %d abbreviations x %d values x 4 versions x 2 objects", len(gen.AllAbvs()), len(gen.AllVals())), int64(len(grid)))
+		}
+	}
 	nh := env.Scale(5000, 15000)
 	for vi := range spec.Versions {
 		vi := vi
